@@ -229,3 +229,24 @@ pub fn transform_varblocks(
         );
     }
 }
+
+/// Verification hook H5: the per-type dispatch `transform_varblocks` selects on this CPU, run on
+/// one coefficient block. Returns the name of the selected path.
+#[cfg(jxl_oxide_verif)]
+pub fn verif_transform(coeff: &mut MutableSubgrid<'_>, dct_select: TransformType) -> &'static str {
+    if is_x86_feature_detected!("sse4.1") {
+        unsafe {
+            transform_x86_64_sse41(coeff, dct_select);
+        }
+        return "x86_64-sse4.1";
+    }
+    transform_x86_64_sse2(coeff, dct_select);
+    "x86_64-sse2"
+}
+
+/// Verification hook H5: the 2-D DCT driver of the x86_64 path (falls back to the generic driver
+/// for unaligned buffers and sizes that are not a multiple of the lane size, as in production).
+#[cfg(jxl_oxide_verif)]
+pub fn verif_dct_2d(io: &mut MutableSubgrid<'_>, direction: DctDirection) {
+    super::dct::dct_2d_x86_64_sse2(io, direction);
+}
